@@ -538,6 +538,11 @@ def dispatch (op : String) (args : List String) : Except String String :=
   | "AREAD" => do
     let (w, f, st, bs) ← run readReq args
     pure (pDeliveredList (readAllAsync st w f bs) ++ " @@ spec=" ++ pDeliveredList (Spec.readStream w f bs))
+  | "SKIPLVL" => do
+    let (mt, l) ← run (do let mt ← messageType; let l ← logLevel; pure (mt, l)) args
+    let eh : ExtendedHeader :=
+      { verbose := false, argumentCount := 0, messageType := mt, applicationId := [], contextId := [] }
+    pure s!"skip={pBool (eh.skipWithLevel l)}"
   | "FILT" => do
     let (w, c, bs) ← run (do let w ← bool; let c ← filterConfig; let b ← bytes; pure (w, c, b)) args
     pure (filt w c bs)
